@@ -212,6 +212,7 @@ where
     // network
     stats_start_time: u128,
     round_trip_time: u128,
+    round_trip_time_measured: bool,
     last_send_time: Instant,
     last_sync_request_time: Instant,
     last_recv_time: Instant,
@@ -299,6 +300,7 @@ impl<T: Config> UdpProtocol<T> {
             // network
             stats_start_time: 0,
             round_trip_time: 0,
+            round_trip_time_measured: false,
             last_send_time: Instant::now(),
             last_sync_request_time: Instant::now(),
             last_recv_time: Instant::now(),
@@ -327,7 +329,9 @@ impl<T: Config> UdpProtocol<T> {
 
         let now = millis_since_epoch();
         let seconds = (now - self.stats_start_time) / 1000;
-        if seconds == 0 {
+        // no numbers before the first quality reply: until then `round_trip_time` is not a
+        // measurement (a handshake over a slow link can take longer than the one-second gate)
+        if seconds == 0 || !self.round_trip_time_measured {
             return Err(GgrsError::NotEnoughData);
         }
 
@@ -812,6 +816,7 @@ impl<T: Config> UdpProtocol<T> {
         // Use saturating_sub: if the clock went backward (NTP step) or the
         // remote sent a tampered pong value, we get 0ms RTT rather than a panic.
         self.round_trip_time = millis.saturating_sub(body.pong);
+        self.round_trip_time_measured = true;
     }
 
     /// Upon receiving a `ChecksumReport`, add it to the checksum history
